@@ -27,7 +27,7 @@ package utils
 //@   mode contract
 //@   ensures C01.xor: result == xorfold(data, len(data))
 //@   loop 1 invariant acc: code == xorfold(data, rangeindex + 1)
-//@ spec xorfold(d []byte, n int) byte = ite(n <= 0, 0, xorfold(d, n-1) ^ d[n-1])
+//@ spec xorfold(d []byte, n int) byte reads d[0:n] = ite(n <= 0, 0, xorfold(d, n-1) ^ d[n-1])
 
 // BCD2Time: two ASCII digits per byte; exactly six bytes are rendered as "20YY-MM-DD hh:mm:ss".
 //@ spec bcdhi(b byte) byte = (b >> 4) + '0'
